@@ -12,7 +12,34 @@ NOT_APPLICABLE = {p: PENDING for p in
                   ["C01", "C02", "C03", "C04", "C05", "C06", "C07", "C08", "C09", "C10", "C11", "C12", "C13",
                    "C14", "C15", "C16", "C17", "C18", "C19"]}
 
+_MEM_NOTE = ("Trusted: Coq kernel; hand-written model of arch/generic/memchr.rs, arch/all/memchr.rs and the per-ISA wrappers, tied "
+             "to the code by results and exact load traces (offset, width, aligned flag) on every run; vector intrinsics below the "
+             "lane level; x & (BYTES-1) = x mod BYTES. No axioms. NEON/simd128 code paths are covered by the theorems (MaskLaws Neon 16, "
+             "Sensible) but executed only through emulation in the thorough tier.")
+
 CHECKS = {
+ "C01": dict(
+    text="C01_generic proves gen_find = first_idx for every vector width B, unroll U, start address and every mask representation "
+         "satisfying MaskLaws; sensible_laws/neon_laws prove the laws for the u32 bitmask and the NEON nibble mask; swar_find_sat covers "
+         "the SWAR code for any word size using has_needle_complete (no false negatives of the has_zero_byte trick); C01_backend/"
+         "C01_dispatch lift this through the short-haystack routing of every backend and every CPU detection outcome, and show every "
+         "load in bounds and aligned when marked aligned.",
+    design_ref="DESIGN.md section 6 (C01)", note=_MEM_NOTE,
+    technique="Coq proof: loop invariants over head chunk / unrolled aligned loop / vector loop / overlapping tail, parametric in width, unroll, alignment and mask representation + trace-level differential correspondence",
+ ),
+ "C02": dict(
+    text="C02_generic / C02_backend / C02_dispatch: gen_rfind = last_idx for all widths, unrolls, END alignments and both mask "
+         "representations (last_offset = 31 - clz32 resp. 15 - (clz64 >> 2) proved in Vec/MaskLaws.v), SWAR reverse scan, wrappers.",
+    design_ref="DESIGN.md section 6 (C02)", note=_MEM_NOTE,
+    technique="Coq proof: reverse loop invariants ('no match at or after cur'), parametric as C01 + trace-level differential correspondence",
+ ),
+ "C07": dict(
+    text="C07_generic / C07_backend: gen_count (scalar head to alignment, unrolled popcounts, vector loop, scalar tail) returns "
+         "count_p for all widths/alignments and both mask representations (popcount law incl. the NEON one-bit-per-nibble mask); "
+         "SWAR byte loop; wrappers. The iterator part (count on a partially consumed iterator) is decided with C06's iterator model.",
+    design_ref="DESIGN.md section 6 (C07)", note=_MEM_NOTE,
+    technique="Coq proof: counting invariant acc = count_p (firstn cur h) + trace-level differential correspondence",
+ ),
  "C18": dict(
     text="Theorems C18_is_equal / C18_is_prefix / C18_is_suffix / C18_is_equal_raw (coq/Props/C18.v) prove for all byte "
          "lists, lengths and placements that the modelled routines return exactly slice equality / starts_with / ends_with, "
